@@ -18,6 +18,7 @@ import (
 var orderInsensitive = map[string]bool{
 	"Contains": true, "ContainsFunc": true, "len": true, "cap": true, "Index": false,
 	"StatesEqual": true, "slicesEvery": true, "slicesNone": true,
+	"Implements": true, // helpers.Implements: the first argument is only searched with slices.Contains
 }
 
 func isSortCall(cc *ssa.CallCommon) bool {
@@ -63,8 +64,78 @@ func isMapKeysIter(v ssa.Value) bool {
 	return false
 }
 
+// mapOrderFns: module functions that return a slice in map iteration order
+// (a source reaches a return and nothing in the function sorts it). Computed
+// in two rounds so that a thin wrapper around such a function counts too.
+var mapOrderFnsCache map[*ssa.Function]bool
+
+func (c *Ctx) mapOrderFns() map[*ssa.Function]bool {
+	if mapOrderFnsCache != nil {
+		return mapOrderFnsCache
+	}
+	mapOrderFnsCache = map[*ssa.Function]bool{}
+	for round := 0; round < 2; round++ {
+		for _, f := range c.Funcs {
+			if mapOrderFnsCache[f] || f.Parent() != nil {
+				continue
+			}
+			srcs := c.orderTaintIn(f)
+			if len(srcs) == 0 {
+				continue
+			}
+			var sortArgs []ssa.Value
+			for _, b := range f.Blocks {
+				for _, ins := range b.Instrs {
+					if call, ok := ins.(*ssa.Call); ok && isSortCall(&call.Call) && len(call.Call.Args) > 0 {
+						sortArgs = append(sortArgs, call.Call.Args[0])
+					}
+				}
+			}
+			for _, src := range srcs {
+				closure := forwardClosure(src.val)
+				sorted := false
+				for v := range closure {
+					for _, a := range sortArgs {
+						if a == v || sameValue(a, v) {
+							sorted = true
+						}
+					}
+				}
+				if sorted {
+					continue
+				}
+				for v := range closure {
+					if v.Referrers() == nil {
+						continue
+					}
+					for _, r := range *v.Referrers() {
+						if _, ok := r.(*ssa.Return); ok {
+							mapOrderFnsCache[f] = true
+						}
+					}
+				}
+			}
+		}
+	}
+	return mapOrderFnsCache
+}
+
 func (c *Ctx) orderTaintIn(f *ssa.Function) []taintSrc {
 	var out []taintSrc
+	// results of module functions known to return map order
+	if mapOrderFnsCache != nil {
+		for _, b := range f.Blocks {
+			for _, ins := range b.Instrs {
+				if call, ok := ins.(*ssa.Call); ok {
+					if g := call.Call.StaticCallee(); g != nil && g != f && mapOrderFnsCache[g] {
+						if _, isSlice := call.Type().Underlying().(*types.Slice); isSlice {
+							out = append(out, taintSrc{call, "result of " + funcKey(g) + " (map order)", call.Pos()})
+						}
+					}
+				}
+			}
+		}
+	}
 	// elements obtained from a map range
 	mapElem := map[ssa.Value]bool{}
 	for _, b := range f.Blocks {
@@ -201,11 +272,40 @@ func forwardClosure(v ssa.Value) map[ssa.Value]bool {
 			case *ssa.Convert:
 				walk(x)
 			case *ssa.Call:
-				if bi, ok := x.Call.Value.(*ssa.Builtin); ok && bi.Name() == "append" && len(x.Call.Args) > 0 && x.Call.Args[0] == v {
-					walk(x)
+				if bi, ok := x.Call.Value.(*ssa.Builtin); ok && bi.Name() == "append" && len(x.Call.Args) > 0 {
+					// the result keeps the (relative) order of both operands
+					for _, a := range x.Call.Args {
+						if a == v {
+							walk(x)
+						}
+					}
+				}
+				// order-preserving transformers: the result is as ordered as the operand
+				switch calleeName(&x.Call) {
+				case "Concat", "Clone", "SlicesUniq", "slicesUniq", "Compact", "slicesWithout", "SlicesWithout":
+					for _, a := range x.Call.Args {
+						if a == v {
+							walk(x)
+						}
+						for _, el := range variadicElems(a) {
+							if el == v {
+								walk(x)
+							}
+						}
+					}
 				}
 			case *ssa.Store:
 				if x.Val == v {
+					// packed into a variadic argument array: the slice over it carries the order
+					if ia, ok := x.Addr.(*ssa.IndexAddr); ok {
+						if arr, ok := ia.X.(*ssa.Alloc); ok && arr.Referrers() != nil {
+							for _, rr := range *arr.Referrers() {
+								if sl, ok := rr.(*ssa.Slice); ok {
+									walk(sl)
+								}
+							}
+						}
+					}
 					if al, ok := x.Addr.(*ssa.Alloc); ok {
 						for _, rr := range *al.Referrers() {
 							if u, ok := rr.(*ssa.UnOp); ok && u.Op == token.MUL {
@@ -230,6 +330,7 @@ func (c *Ctx) rulesC11(pkgs []string) {
 		want[p] = true
 	}
 	nsrc := 0
+	c.mapOrderFns()
 	for _, f := range c.Funcs {
 		tf := topFunc(f)
 		if tf.Pkg == nil || !want[relPkg(tf.Pkg.Pkg.Path())] {
